@@ -81,7 +81,7 @@ func main() {
 	case "build":
 		b := newBuilder()
 		defer b.cleanup()
-		for _, f := range []string{"plain", "race", "purego", "auto", "racepurego", "386"} {
+		for _, f := range []string{"plain", "race", "purego", "auto", "autorace", "racepurego", "386"} {
 			if _, err := b.binary(f); err != nil {
 				fatal(2, "%v", err)
 			}
